@@ -54,6 +54,10 @@ def plans():
          'random': random_runs},
         {'name': 'valued', 'schema': 'valued', 'model': False, 'bound': 2, 'opt': OPT, 'obs': obs,
          'random': random_runs},
+        {'name': 'mixed_case', 'schema': 'mixed_case', 'model': False, 'bound': 2, 'opt': OPT, 'obs': obs,
+         'random': random_runs},
+        {'name': 'keywords', 'schema': 'keywords', 'model': False, 'bound': 2, 'opt': OPT, 'obs': obs,
+         'random': random_runs},
     ]
 
 
